@@ -33,6 +33,8 @@ type World struct {
 	effFree   []string
 	Overlay   map[string][]byte
 	ContractSources map[string]string // pkg path -> where the contract file was read from
+	typeInvs map[string][]*TypeInv
+	Aliases map[string]string
 }
 
 const contractFileName = "zz_verif_contracts.go"
@@ -53,11 +55,13 @@ func mirrorContractFiles(verifDir string) map[string]string {
 
 // contractPathFor returns the contract file for a package dir (relative), preferring the copy in the repository.
 func contractPathFor(repoDir, verifDir, rel string) (string, bool) {
-	p := filepath.Join(repoDir, rel, contractFileName)
+	// the mirror under /verif/contracts is authoritative; the copy committed in the repository (tools/sync_contracts.sh)
+	// is used when the mirror has none
+	p := filepath.Join(verifDir, "contracts", rel, contractFileName)
 	if _, err := os.Stat(p); err == nil {
 		return p, true
 	}
-	p = filepath.Join(verifDir, "contracts", rel, contractFileName)
+	p = filepath.Join(repoDir, rel, contractFileName)
 	if _, err := os.Stat(p); err == nil {
 		return p, true
 	}
@@ -167,6 +171,12 @@ func LoadWorld(repoDir, verifDir string, relPkgs []string, overlay map[string][]
 		fnames = append(fnames, n)
 	}
 	sort.Strings(fnames)
+	w.Aliases = map[string]string{}
+	for _, n := range fnames {
+		for a, p := range w.Files[n].Imports {
+			w.Aliases[a] = p
+		}
+	}
 	for _, n := range fnames {
 		cf := w.Files[n]
 		for _, sf := range cf.SpecFuncs {
@@ -202,6 +212,7 @@ func LoadWorld(repoDir, verifDir string, relPkgs []string, overlay map[string][]
 			w.Contracts[cn] = fc
 		}
 	}
+	w.indexTypeInvs()
 	return w, nil
 }
 
